@@ -26,6 +26,7 @@ DESCRIBE = {
     "malformed-frame(length+16)": "the backend received a frame whose header announces 16 body bytes more than the message has (the frame swallows the head of the next frame)",
     "malformed-frame(other)": "the backend received a frame that is not well framed (announced body length does not match the message, or the body does not decompress / decode)",
     "undecodable-at-backend(missing-result-metadata-id)": "the backend cannot decode the forwarded EXECUTE: the result-metadata id is missing",
+    "undecodable-at-backend(does-not-decompress)": "the backend cannot decompress the body of the forwarded frame",
     "undecodable-at-backend(garbled)": "the backend cannot decode the forwarded frame",
     "dropped": "the proxy closed the client connection instead of forwarding a well-formed request",
     "not-forwarded": "the client got an answer although the backend never received the request",
@@ -39,7 +40,9 @@ def classify(x, dec, o):
     if st == "closed":
         return [("dropped", "client connection closed, backend received %d frame(s)" % o["natt"])]
     if st == "undecodable":
-        what = "missing-result-metadata-id" if "missing result metadata id" in o.get("err", "") else "garbled"
+        err = o.get("err", "")
+        what = ("missing-result-metadata-id" if "missing result metadata id" in err
+                else "does-not-decompress" if "cannot decompress" in err else "garbled")
         return [("undecodable-at-backend(%s)" % what, o.get("err", ""))]
     if st != "ok":
         return []
@@ -50,7 +53,7 @@ def classify(x, dec, o):
     cons = o.get("cons") or []
     sent, override, verdict = x["cons"], dec["override"], dec["verdict"]
     changed = [c for c in cons if c != sent]
-    if verdict == "same" or (verdict == "open" and not changed):
+    if verdict == "same" or (verdict == "open" and not changed and o["bytes_same"]):
         if changed:
             out.append(("overridden-unexpectedly", "sent %s, backend saw %s (list %s, override %s, class %s)" % (
                 sent, cons, dec["list"], override, x["sel"])))
@@ -124,7 +127,8 @@ def run(ctx):
                 s = pool[cursor[ck] % len(pool)]
                 cursor[ck] += 1
                 r = rng.random()
-                size = "L" if (thorough and r < 0.004) else "M" if r < 0.06 else "S"
+                # (compressed frames get more medium bodies: a third of those is incompressible data)
+                size = "L" if (thorough and r < 0.004) else "M" if r < (0.2 if s["compressed"] else 0.05) else "S"
                 x = {"i": len(ex) + 1, "ver": s["ver"], "op": s["op"], "sel": s["sel"], "flags": s["flags"],
                      "comp": s["comp"], "compressed": s["compressed"], "size": size, "cons": d["cons"],
                      "salt": rng.randrange(1 << 40)}
